@@ -607,7 +607,7 @@ class Sim:
             if not isinstance(i, Signal):
                 continue
             ii = self.index(i)
-            trk.append([ii, self.index(r0), od, self.S[ii], self.S[ii], -10 ** 18])  # idx_i, idx_r0, dom, last, prev, t_change
+            trk.append([ii, self.index(r0), od, self.S[ii], self.S[ii], -10 ** 18, len(trk)])  # idx_i, idx_r0, dom, last, prev, t_change, ordinal
         dec = list(decisions) or [0]
         k = [0]
 
@@ -624,7 +624,7 @@ class Sim:
                             # sampled value is t[3] (new); changed bits selected by the mask resolve to old
                             S[t[1]] = (S[t[1]] & ~diff) | (t[4] & diff)
                             st["altered"] += 1
-                            sim.ev("meta", t[1], diff)
+                            sim.ev("meta", t[6], diff)
 
         def post_hook(sim):
             S = sim.S
@@ -643,7 +643,7 @@ class Sim:
                         if diff:
                             S[t[1]] = (S[t[1]] & ~diff) | (t[3] & diff)
                             st["altered"] += 1
-                            sim.ev("meta", t[1], diff)
+                            sim.ev("meta", t[6], diff)
         self.commit_hooks.append(commit_hook)
         self.post_hooks.append(post_hook)
         return st
